@@ -538,6 +538,16 @@ fn c18_forward(ctx: &mut Ctx) {
             Dd::new(if ctx.flag() { -0.0 } else { 0.0 }, 0.0)
         }
     };
+    let x = match if ctx.chance(1, 8) { crate::fcommon::format_parameter_multiple(ctx, -60, 9) } else { None } {
+        Some(hi) => {
+            if ctx.chance(1, 3) {
+                Dd::new(hi, 0.0)
+            } else {
+                dd_at(ctx, hi)
+            }
+        }
+        None => x,
+    };
     let x = if x.big().abs() > Big::from_u64(600) { Dd::new(600.0 * x.hi.signum(), 0.0) } else { x };
     let x = if ctx.chance(1, 24) { end_point_sym(ctx, 600.0) } else { x };
     let x = forced_or(ctx, x);
